@@ -707,7 +707,7 @@ class MasterSim(object):
         self._up(name, spec)
 
     def op_resize(self, idx, cap, style):
-        name = self._pick_server(idx)
+        name = self._pick_loaded(idx)
         if name is None or self.tree.nodes.get(z.path.server(name)) is None:
             return
         self.tick()
@@ -744,8 +744,23 @@ class MasterSim(object):
             self.admin, name, PARTS[part % self.case.get('nparts', 1)])
         self.server_records[name]['part'] = part
 
+    def op_flap(self, idx, spec, wait):
+        """One server: down (observed), back up with a changed record
+        (observed), a long time passes, down again (observed)."""
+        name = self._pick_loaded(idx)
+        if name is None or name not in self.nodes:
+            return
+        self._down(name)
+        self.quiescent()
+        self._up(name, spec)
+        self.quiescent()
+        self.clock.advance(wait)
+        self._down(name)
+        self.quiescent()
+        self.count('flaps')
+
     def op_reparent(self, idx, rack_idx):
-        name = self._pick_server(idx)
+        name = self._pick_loaded(idx)
         if name is None or self.tree.nodes.get(z.path.server(name)) is None:
             return
         self.tick()
